@@ -9,6 +9,7 @@ import TdVerif.Model.ParseTo
 import TdVerif.Model.NewUnsafe
 import TdVerif.Model.FromTd
 import TdVerif.Model.Memo
+import TdVerif.Model.Consolidate
 
 namespace TdVerif.Drive
 open TdVerif Sexp
@@ -226,6 +227,11 @@ def handleC18 (cmd : String) (args : List Sexp) : Option Sexp :=
         .list [.atom (if r.1 then "true" else "false"),
                .atom (match Memo.memoGet r.2 0 with | some true => "true" | some false => "false" | none => "none")]
       pure (.list [show1 (Memo.eager w 0), show1 (Memo.compileRead w 0), show1 (Memo.compileFresh w 0)])
+  -- (c18.consolidate_leaf (sizes…) (strides…) offset) → (is_contiguous viewU8Ok okEager okCompile)
+  | "c18.consolidate_leaf", [.list sz, .list st, off] => do
+      let m : Consolidate.TMeta := ⟨← nats? sz, ← nats? st, ← asNat? off⟩
+      let b (x : Bool) : Sexp := .atom (if x then "true" else "false")
+      pure (.list [b (Consolidate.isContig m), b (Consolidate.viewU8Ok m), b (Consolidate.okEager m), b (Consolidate.okCompile m)])
   | _, _ => none
 
 end TdVerif.Drive
